@@ -80,6 +80,9 @@ def exact(S, n, m, pattern, policy, cfg, second_policy):
         for pol in pols:
             with gpytorch.settings.observation_nan_policy(pol), settings_ctx(cfg):
                 out = S.must_not_raise("prediction under policy %s" % pol, lambda: model(xs))
+                if pol == "ignore":
+                    _ = out.mean  # default policy first (NaNs propagate, nothing is claimed about this output)
+                    continue
                 outs[pol] = (out.mean, out.covariance_matrix)
         mll_t = None
         if policy == "mask":
@@ -178,6 +181,9 @@ def scenarios(tier, seed):
                 continue
             for policy, second in (("mask", "fill"), ("fill", "mask")):
                 add("exact", n=n, m=2 if n < 3 else 1, pattern=pat, policy=policy, cfg={}, second_policy=second)
+    for second in ("mask", "fill"):
+        add("exact", n=2, m=1, pattern="01", policy="ignore", cfg={}, second_policy=second)
+        add("exact", n=3, m=1, pattern="100", policy="ignore", cfg={}, second_policy=second)
     add("exact", n=2, m=1, pattern="01", policy="mask", cfg={"fpv": True}, second_policy="")
     add("exact", n=3, m=1, pattern="010", policy="fill", cfg={"fpv": True}, second_policy="")
     for policy in ("mask", "fill"):
